@@ -183,3 +183,93 @@ def u_list_to_bytes(E):
     E.loop_specs[(M + 'vbs_list_to_bytes', 0)] = WriteManyLoop({'m': m, 'prefix': seq_lit('bytes', b''), 'VBS': st, 'MAX': MAX, 'writer_var': 'vbs_out'})
     out = E.call(M + 'vbs_list_to_bytes', E.new_list(records_list(E, m, MAX)))
     E.prove_value_eq('vbs_list_to_bytes/bytes=len4+record-for-every-record++zero-length', out, seq_concat(st, S.be32(z3.IntVal(0))), 'P')
+
+
+# ---------------------------------------------------------------- the list/bytes helpers as clients of the classes (plumbing)
+def helper_recorders(E):
+    log = []
+    FINAL = E.fresh_seq('bytes', 'finalised_file')
+
+    def w_init(E2, args, kw):
+        log.append(('init', list(args), dict(kw)))
+        E.setf(args[0], 'out_file', args[1])
+        return NONE
+
+    def w_write(E2, args, kw):
+        log.append(('write', list(args), dict(kw)))
+        return NONE
+
+    def w_close(E2, args, kw):
+        log.append(('close', list(args), dict(kw)))
+        f = E.getf(args[0], 'out_file')
+        E.setf(f, 'content', FINAL)         # VbsWriter.close contract (C11): the file is finalised and rewound
+        E.setf(f, 'pos', VInt(0))
+        return NONE
+    E.contracts[M + 'VbsWriter.__init__'] = w_init
+    E.contracts[M + 'VbsWriter.write'] = w_write
+    E.contracts[M + 'VbsWriter.close'] = w_close
+    E.contracts[M + 'VbsWriter.__exit__'] = w_close
+    return log, FINAL
+
+
+@unit('vbs_list_to_bytes/plumbing', props=['C03', 'C04', 'C17'], functions=[M + 'vbs_list_to_bytes'])
+def u_list_to_bytes_plumbing(E):
+    """the helper builds one writer with exactly the caller's options, writes every record in order, FINALISES the writer once
+    (so a blocked result is whole blocks) and returns the finalised file"""
+    r1, r2 = E.fresh_seq('bytes', 'r1'), E.fresh_seq('bytes', 'r2')
+    for opts in ({}, {'blocked': TRUE}, {'blocked': FALSE}):
+        log, FINAL = helper_recorders(E)
+        out = E.call(M + 'vbs_list_to_bytes', E.new_list(seq_items('list', [r1, r2])), **opts)
+        tag = 'vbs_list_to_bytes[%s]' % (','.join('%s=%s' % (k, 'True' if v is TRUE else 'False') for k, v in opts.items()) or 'no options')
+        kinds = [x[0] for x in log]
+        E.prove(tag + '/one-writer-both-records-then-finalised-once', z3.BoolVal(kinds == ['init', 'write', 'write', 'close']), 'P')
+        if kinds != ['init', 'write', 'write', 'close']:
+            continue
+        ikw = log[0][2]
+        E.prove(tag + '/writer-gets-exactly-the-callers-options', z3.BoolVal(set(ikw) == set(opts) and all(ikw[k] is opts[k] for k in opts)), 'P')
+        E.prove(tag + '/records-in-order', z3.BoolVal(log[1][1][1] is r1 and log[2][1][1] is r2), 'P')
+        E.prove_value_eq(tag + '/returns-the-finalised-file', out, FINAL, 'P')
+
+
+@unit('vbs_bytes_to_list/plumbing', props=['C03', 'C05', 'C09'], functions=[M + 'vbs_bytes_to_list'])
+def u_bytes_to_list_plumbing(E):
+    """the helper reads exactly the bytes it was given (nothing stripped or guessed), through one reader built with exactly
+    the caller's options, and returns the records the reader yields, in order; the reader's data error passes through"""
+    data = E.fresh_seq('bytes', 'data')
+    r1, r2 = E.fresh_seq('bytes', 'r1'), E.fresh_seq('bytes', 'r2')
+    for opts in ({}, {'blocked': TRUE}):
+        log = []
+        state = {'n': 0}
+
+        def r_init(E2, args, kw, log=log):
+            log.append(('init', list(args), dict(kw)))
+            return NONE
+
+        def r_next(E2, args, kw, state=state):
+            state['n'] += 1
+            if state['n'] == 1:
+                return r1
+            if state['n'] == 2:
+                return r2
+            raise PyRaise(E.make_exc(StopIteration, []))
+
+        def r_iter(E2, args, kw):
+            return args[0]
+        E.contracts[M + 'VbsReader.__init__'] = r_init
+        E.contracts[M + 'VbsReader.__next__'] = r_next
+        E.contracts[M + 'VbsReader.__iter__'] = r_iter
+        out = E.call(M + 'vbs_bytes_to_list', data, **opts)
+        tag = 'vbs_bytes_to_list[%s]' % ('blocked=True' if opts else 'no options')
+        E.prove(tag + '/one-reader', z3.BoolVal(len(log) == 1), 'P')
+        if len(log) != 1:
+            continue
+        f = log[0][1][1] if len(log[0][1]) > 1 else log[0][2].get('vbs_file')
+        ok = isinstance(f, VRef) and E.kind_of(f) == 'file'
+        E.prove(tag + '/reader-is-given-a-file-object', z3.BoolVal(ok), 'P')
+        if ok:
+            E.prove_value_eq(tag + '/file-holds-exactly-the-callers-bytes', E.getf(f, 'content'), data, 'P')
+            E.prove(tag + '/file-at-its-start', E.as_int(E.getf(f, 'pos')) == 0, 'P')
+        ikw = log[0][2]
+        E.prove(tag + '/reader-gets-exactly-the-callers-options', z3.BoolVal(set(ikw) == set(opts) and all(ikw[k] is opts[k] for k in opts)), 'P')
+        got = E.list_val(out) if isinstance(out, VRef) else out
+        E.prove(tag + '/returns-the-records-the-reader-yields-in-order', z3.BoolVal(isinstance(got, VSeq) and got.clen() == 2 and got.at(z3.IntVal(0)) is r1 and got.at(z3.IntVal(1)) is r2), 'P')
